@@ -355,6 +355,68 @@ pub fn c08(ctx: &Ctx, rep: &mut Report) {
     let t = ctx.tier;
     ctx.prop(rep, "cut-points", t.pick(1_500, 30_000), 20, || c08_base().prop_map(|base| C08Case { base, only: None }), run_c08);
     ctx.enumerate(rep, "last-retry-at-teardown", 12 * 14, 10, last_retry_case, run_c08);
+    // a buffering transport over a slow link: what the endpoint handed to its WebSocket is only transmitted once the close has
+    // flushed it, and that takes longer than the keepalive timeout (virtual time passes while the close is pending); dropping the
+    // Multiplexor on this healthy (if slow) transport must still get every queued frame to the peer before the Close
+    ctx.enumerate(
+        rep,
+        "drop-flush-slow-link",
+        40 * 2,
+        10,
+        |i| {
+            let k = 6 + (i % 40) as u32;
+            let ticks = 3 + (i / 40) as u32 * 3;
+            // the link stops delivering just before the drop; once the endpoint has handed everything to its WebSocket and is waiting
+            // for the close (= quiescence), virtual time passes; then the link delivers again
+            let mut events = vec![RawEvent { when: Trigger::ForcedAt(k), what: What::Hold { side: 0, on: true } }, RawEvent { when: Trigger::ForcedAt(k + 1), what: What::DropMux { side: 0 } }];
+            for _ in 0..ticks {
+                events.push(RawEvent { when: Trigger::Quiescent, what: What::Tick });
+            }
+            events.push(RawEvent { when: Trigger::Quiescent, what: What::Hold { side: 0, on: false } });
+            events.push(RawEvent { when: Trigger::Quiescent, what: What::Wake(1) });
+            let w: Vec<WOp> = std::iter::repeat(WOp::Write(3)).take(6).chain([WOp::Shutdown]).collect();
+            Case {
+                opts: [OptsSpec { rwnd: 16, thr: 4, ..OptsSpec::default() }, OptsSpec { rwnd: 16, thr: 4, ..OptsSpec::default() }],
+                streams: vec![StreamSpec { side: 0, port: 1, pad: vec![], delay: 0, park: None, cancel: None, ends: [EndScript { w, r: vec![] }, EndScript { w: vec![], r: vec![ROp::Park(1), ROp::ToEof(64)] }] }],
+                dgrams: vec![DgSpec { side: 0, flow_id: 3, host_len: 4, port: 9, data_len: 5, delay: 2 }],
+                dg_readers: [DgReader::None, DgReader::AfterWake(1)],
+                keepalive: [true, false],
+                keepalive_timeout_ticks: 2,
+                flush_waits: [true, false],
+                events,
+                ..Case::default()
+            }
+        },
+        |case| {
+            let run = run_case(case);
+            FAULT_RUNS.fetch_add(1, Ordering::Relaxed);
+            if !run.quiescent {
+                return Outcome::inconclusive("step bound");
+            }
+            let a = Analysis::new(case, &run);
+            let Some(drop_at) = run.events.iter().position(|e| matches!(&e.ev, Ev::App(AppEv::MuxDropped { side: 0 }))) else {
+                return Outcome::pass(false, vec!["drop-after-the-end"]);
+            };
+            if run.events[..drop_at].iter().any(|e| matches!(&e.ev, Ev::TaskExit { .. })) {
+                return Outcome::pass(false, vec!["ended-before-the-drop"]);
+            }
+            if let Some(lost) = run.events.iter().find_map(|e| if let Ev::Fault(m) = &e.ev { if m.contains("never transmitted") { Some(m.clone()) } else { None } } else { None }) {
+                return Outcome::violation("c08-drop-loses-buffered-frames", format!("the Multiplexor was dropped on a healthy but slow transport with keepalive configured: {lost}; tail: {}", a.ctx(14)));
+            }
+            // what the application had completed before the drop arrives
+            let w = a.streams[0].ends[0].written_before(drop_at);
+            let shut = a.streams[0].ends[0].shutdown_at.is_some_and(|s| s < drop_at);
+            let r = &a.streams[0].ends[1];
+            if a.streams[0].accepted_at.is_some() && (r.total_read() < w || (shut && r.eof_at.is_none())) {
+                return Outcome::violation("c08-drop-loses-data", format!("{w} bytes written (shutdown: {shut}) before the Multiplexor was dropped; the peer read {} bytes, eof {:?}; tail: {}", r.total_read(), r.eof_at, a.ctx(14)));
+            }
+            if std::env::var("VF_TRACE").is_ok() {
+                eprintln!("TRACE {}", a.ctx(70));
+            }
+            let in_flight_at_drop = w > 0;
+            Outcome::pass(in_flight_at_drop, vec!["drop-with-slow-flush"])
+        },
+    );
     // the flush after a local drop under a real tokio runtime (cooperative budget, real wake-ups) with a large backlog
     ctx.enumerate(rep, "drop-flush-backlog", (BACKLOG.len() * 3) as u64, 4, |i| (BACKLOG[(i % BACKLOG.len() as u64) as usize], (i / BACKLOG.len() as u64) as u8), run_backlog);
     rep.extra.insert("fault_injections".into(), serde_json::json!(FAULT_RUNS.load(Ordering::Relaxed)));
